@@ -386,6 +386,8 @@ BASE_LINES = [
     ("", "LDB", "5,Y", ""), ("", "NOP", "", "nothing"), ("", "LBRA", "START", ""), ("", "STB", "<$20", ""),
     ("", "LDA", "B,U", ""), ("", "INCLUDE", "other.asm", ""), ("", "LDA", "START,X", "label offset"), ("", "LEAX", "LOOP,Y", ""),
     ("", "LDA", "[MSG,U]", ""), ("", "LDB", "START,PC", ""), ("L2", "LDA", "L2,S", ""), ("", "LDA", "K,X", ""), ("", "LDD", "#START-LOOP", ""),
+    ("Z0", "RMB", "0", "nothing reserved"), ("", "RMB", "$00", ""), ("", "FCB", "0", ""), ("", "FDB", "0", ""), ("", "FCC", '""', "empty"),
+    ("", "FDB", "START,LOOP", "table"), ("", "LDX", "#-1", ""), ("", "LDA", "-0,X", ""), ("", "FCC", '"A B;C"', "odd"),
 ]
 PUNCT = [",", "#", "[", "]", "<", ">", "'", '"', "+", "-", "*", "/", "$", "%", "@", ";", ".", ":", "(", "=", "!", "?", "&", "^"]
 
